@@ -113,6 +113,10 @@ def step (_ : Unit) (ts : List String) : Unit × String :=
         else if op == "m4axang" && n == 16 then showV3 (Gen.AA.matAxisAngle F C T (matOf 4 v))
         else if op == "m4rote" && n == 6 then
           show2 4 4 (Gen.M4.rotateE F T (v3Of v 0) (v.getD 3 0 % 3) (v.getD 4 0 % 3) (v.getD 5 0 % 3))
+        else if op == "m4euler" && n == 19 then
+          let a0 := v.getD 16 0 % 3
+          let a1 := (a0 + 1 + v.getD 17 0 % 2) % 3
+          showV3 (Gen.M4.eulerAngles F C T 7 (matOf 4 v) a0 a1 (v.getD 18 0 % 3))
         else if op == "qmat" && n == 4 then show2 4 4 (Gen.Q.matrix F (quatOf v))
         else if op == "qmul" && n == 8 then showQ (Gen.Q.mul F (quatOf v) (quatOf v 4))
         else if op == "qconj" && n == 4 then showQ (Gen.Q.conj F (quatOf v))
